@@ -4,14 +4,16 @@ go 1.21
 
 replace github.com/herohde/morlock => /repo
 
-require github.com/herohde/morlock v0.0.0-00010101000000-000000000000
+require (
+	github.com/herohde/morlock v0.0.0-00010101000000-000000000000
+	github.com/seekerror/stdlib v0.0.0-20231216224128-fab4c1e73ebe
+)
 
 require (
 	github.com/golang/glog v1.2.0 // indirect
 	github.com/golang/protobuf v1.5.2 // indirect
 	github.com/seekerror/build v1.0.2 // indirect
 	github.com/seekerror/logw v0.8.1 // indirect
-	github.com/seekerror/stdlib v0.0.0-20231216224128-fab4c1e73ebe // indirect
 	golang.org/x/exp v0.0.0-20231214170342-aacd6d4b4611 // indirect
 	google.golang.org/appengine v1.6.8 // indirect
 	google.golang.org/protobuf v1.31.0 // indirect
